@@ -35,7 +35,7 @@ from pyvc.values import SInt, SBool, SStr, SBytes, Blob, And, Unsupported
 from pyvc.interp import PyRaise, Frame
 from pyvc.loops import ForSpec
 from pyvc.models import AbstractSeq, SymBytesIO
-from .common import install_version_contracts, sym_context, raw, reachable_loops
+from .common import install_version_contracts, sym_context, raw, reachable_loops, reachable_loop_nodes, ByIterable
 from .codec import install_all_codecs, peek_reader
 
 I_ = minecraft.PROTOCOL_VERSION_INDICES
@@ -121,7 +121,8 @@ class ElementLoops(Unit):
         install_version_contracts(I)
         install_all_codecs(I)
         unit = self
-        wkeys = reachable_loops(self.writer, self.owner, kind=ast.For, depth=1)
+        wnodes = reachable_loop_nodes(self.writer, self.owner, kind=ast.For, depth=1)
+        wkeys = [k for _f, _n, k in wnodes]
         rkeys = reachable_loops(self.reader, self.owner, kind=ast.For, depth=1)
         if not wkeys or not rkeys:
             raise Unsupported('contract does not fit the code any more: no element loop in %s / %s'
@@ -154,13 +155,18 @@ class ElementLoops(Unit):
             return len(atoms) >= len(head) and all(a is b for a, b in zip(atoms, head))
 
         def w_havoc(I_, fr, j):
+            unit.w_locals = dict(fr.locals)               # the environment of the writer's loop (for writer_body_output)
             buf = w_content(fr)
             rep = Blob(('rep', 'written', id(unit)), I_.E.new_int('rep.len', 0, None))
             unit.w_head = list(unit.w_prefix) + [rep]
             unit.w_rep = rep
             buf.bytes.content = SBytes(unit.w_head)
-        for k in wkeys:
-            I.loop_specs[k] = ForSpec('write-elements', w_length, w_element, w_inv, w_havoc)
+        for f, node, k in wnodes:
+            def length_at(I_, it, f=f, node=node):
+                unit.w_loop = (f, node)                   # the loop that actually iterates over the list
+                return w_length(I_, it)
+            I.loop_specs[k] = ByIterable(lambda it: isinstance(it, AbsElems),
+                                         ForSpec('write-elements', length_at, w_element, w_inv, w_havoc))
 
         # ---- reader loop ------------------------------------------------------------
         def r_length(I_, it):
@@ -221,22 +227,23 @@ class ElementLoops(Unit):
             tail = [rest] + list(unit.r_trailer)
             rd.rest = list(w_bytes) + tail
             unit.r_expect = (tail, e)
+        from pyvc.builtins_model import SymRange
         for k in rkeys:
-            I.loop_specs[k] = ForSpec('read-elements', r_length, r_element, r_inv, r_havoc)
+            I.loop_specs[k] = ByIterable(lambda it: isinstance(it, SymRange),
+                                         ForSpec('read-elements', r_length, r_element, r_inv, r_havoc))
 
     def writer_body_output(self, I, elem):
-        """The atoms the writer's loop body emits for one element (its AST executed on a scratch buffer)."""
-        fors = _loop_node(self.writer_loop_function(), lambda n: True)
-        if len(fors) != 1 or not isinstance(fors[0].target, ast.Name):
-            raise Unsupported('writer loop: expected exactly one simple for loop in %s' % self.writer_loop_function().__qualname__)
-        node = fors[0]
-        f = self.writer_loop_function()
+        """The atoms the writer's loop body emits for one element (its AST executed on a scratch buffer, in the
+        environment the writer's loop had)."""
+        if getattr(self, 'w_loop', None) is None or getattr(self, 'w_locals', None) is None:
+            raise Unsupported('writer loop over the list was not reached before the reader needed its output')
+        f, node = self.w_loop
+        if not isinstance(node.target, ast.Name):
+            raise Unsupported('writer loop: the loop target is not a simple name')
         scratch = I.call(PacketBuffer)
         fr = Frame(f.__globals__, None, f.__module__ + '.' + f.__qualname__ + '[loop body]')
-        params = list(inspect.signature(f).parameters)
-        fr.locals[params[0]] = self.w_obj_for_body
-        for p in params[1:]:
-            fr.locals[p] = scratch
+        for k, v in self.w_locals.items():
+            fr.locals[k] = scratch if isinstance(v, PacketBuffer) else v
         fr.locals[node.target.id] = elem
         I.exec_block(node.body, fr)
         return list(SBytes.of(scratch.bytes.content).atoms)
@@ -249,6 +256,7 @@ class ElementLoops(Unit):
         ctx, i = sym_context(I, 'supported')
         self.sym_i = i
         self.r_expect = None
+        self.w_loop = self.w_locals = None
         if not self.applicable(I, ctx, i):
             return None
         self.n = E.new_int('n', 0, (1 << 31) - 1)         # the count travels as a VarInt
